@@ -347,12 +347,16 @@ func (q *ProvideQueue) DrainDatastore(ctx context.Context, d ds.Batching) error 
 			return fmt.Errorf("error reading query result: %w", result.Error)
 		}
 
-		// Key format: "/position/prefix"
+		// Key format: "/position/prefix". The empty prefix is stored as
+		// "/position", since datastore keys have no trailing slash.
 		parts := strings.Split(strings.TrimPrefix(result.Key, "/"), "/")
-		if len(parts) != 2 {
+		if len(parts) > 2 {
 			continue // Skip invalid keys
 		}
-		prefix := bitstr.Key(parts[1])
+		var prefix bitstr.Key
+		if len(parts) == 2 {
+			prefix = bitstr.Key(parts[1])
+		}
 
 		// Decode concatenated multihashes
 		keys, err := decodeMultihashes(result.Value)
